@@ -649,6 +649,14 @@ def orc_layout(ctx, op, req, impl, model, spec):
             name = "?"
         return ("character_direction(%s) = %s; by the CLDR layout data it must be %s (a script CLDR lists decides on its own; "
                 "no listed script and a language CLDR never lists right-to-left is left-to-right)" % (name, impl[3:], spec[5:]))
+    if op == "dir" and ctx.get("likely", True) and ctx.get("dirref") and impl[3:] != ctx["dirref"]:
+        try:
+            name = R.unhex(req.split(" ")[1]).decode("ascii", "replace")
+        except Exception:
+            name = "?"
+        return ("character_direction(%s) = %s with likelysubtags; the independent model derived from the CLDR layout and likelySubtags files "
+                "says %s (a listed script decides; for a language CLDR lists right-to-left: the direction of the likely script of "
+                "maximize(language, -, region))" % (name, impl[3:], ctx["dirref"]))
     if op != "dir":
         return None
     names, langdirs = layout_data()
@@ -1495,6 +1503,7 @@ def judge(cfg, req, impl, mo, ctx):
         cols = mo.split("\t")
         model = cols[0] if ctx.get("likely", True) else cols[1]
         spec = cols[2] if len(cols) > 2 else None
+        ctx["dirref"] = cols[3][4:] if (len(cols) > 3 and cols[3].startswith("ref ")) else None
     if cfg.ops is not None and op not in cfg.ops:
         return False, None
     dis = False
@@ -1863,14 +1872,14 @@ def check(pid, tier, seed):
                     out.append(cfg.pid == "C01")
                     continue
                 mm, sp = split_model(m)
-                out.append(bool(cfg.oracle(dict(_c0), c.split(" ", 1)[0], c, i, mm, sp)) and not is_known(c, i))
+                out.append(bool(judge(cfg, c, i, m, dict(_c0))[1]) and not is_known(c, i))
             return out
-        stateless = cfg.oracle(dict(c0), req.split(" ", 1)[0], req, impl, *split_model(mo))
+        stateless = judge(cfg, req, impl, mo, dict(c0))[1]
         small = R.shrink(req, still_bad) if (sname not in ("corpus", "macros") and stateless) else req
         i2 = requery([small], harness)[0]
         m2 = requery([small], R.DRIVER)[0]
         mm, sp = split_model(m2)
-        msg2 = cfg.oracle(dict(c0), small.split(" ", 1)[0], small, i2, mm, sp)
+        msg2 = judge(cfg, small, i2, m2, dict(c0))[1]
         v = {"kind": "oracle", "stream": sname, "config": label, "request": small, "shown": R.show_req(small), "impl": i2,
              "model_and_spec": m2, "why": msg2 or msg, "original_request": req, "seed": seed, "tier": tier}
         if not msg2 and stateless and before and sname not in ("corpus", "macros"):
@@ -1880,14 +1889,14 @@ def check(pid, tier, seed):
                 pre = before[-k:]
                 ans = requery(pre + [req], harness)
                 last = ans[-1] if ans else None
-                if last is not None and cfg.oracle(dict(c0), req.split(" ", 1)[0], req, last, *split_model(mo)):
+                if last is not None and judge(cfg, req, last, mo, dict(c0))[1]:
                     # drop preceding requests that are not needed
                     keep = list(pre)
                     j = 0
                     while j < len(keep) and len(keep) > 1:
                         trial = keep[:j] + keep[j + 1:]
                         a2 = requery(trial + [req], harness)
-                        if a2 and a2[-1] is not None and cfg.oracle(dict(c0), req.split(" ", 1)[0], req, a2[-1], *split_model(mo)):
+                        if a2 and a2[-1] is not None and judge(cfg, req, a2[-1], mo, dict(c0))[1]:
                             keep = trial
                         else:
                             j += 1
